@@ -489,78 +489,117 @@ func TestScriptedServer(t *testing.T) {
 		kind := []string{"tcp", "http"}[rapid.IntRange(0, 1).Draw(rt, "kind")]
 		key := rapid.Uint64().Draw(rt, "key")
 
-		ln, err := net.Listen("tcp", "127.0.0.1:0")
-		if err != nil {
+		problem, skipped := runScript(s, kind, key)
+		if skipped {
 			rt.Skip("listen")
 		}
-		defer ln.Close()
-		var mu sync.Mutex
-		var clear bytes.Buffer
-		tlsDone := false
-		var wg sync.WaitGroup
-		wg.Add(1)
-		go func() {
-			defer wg.Done()
-			c, err := ln.Accept()
-			if err != nil {
-				return
-			}
-			if kind == "http" {
-				// speak the websocket upgrade first, then the script inside binary messages
-				serveWebsocketScript(c, s, &clear, &mu, &tlsDone)
-				return
-			}
-			serveScript(c, s, &clear, &mu, &tlsDone)
-		}()
-		port := ln.Addr().(*net.TCPAddr).Port
-		var up upstream.Upstream
-		if kind == "tcp" {
-			up = &upstream.Socket{Address: addr.MustParseAddress(fmt.Sprintf("tcp://localhost:%d", port))}
-		} else {
-			up = &upstream.Http{Address: addr.MustParseAddress(fmt.Sprintf("http://localhost:%d/ws", port))}
-		}
-		mgr := &cert.ClientConfig{Config: cert.Config{CaCertificate: vlib.GetPKI().CA.CertPEM}}
-		cerr := up.Connect(mgr, s.MustSecure)
-		connected := cerr == nil
-		mk := marker(key)
-		if connected {
-			// what the client would now carry: application data on the physical session
-			up.SetDeadline(time.Now().Add(3 * time.Second))
-			up.Write(payloadWithMarker(key, 100, 100))
-			time.Sleep(30 * time.Millisecond)
-			up.Close()
-		}
-		ln.Close()
-		wg.Wait()
-		mu.Lock()
-		seenClear := bytes.Contains(clear.Bytes(), mk)
-		td := tlsDone
-		mu.Unlock()
-		desc := map[string]interface{}{"script": s, "kind": kind}
-		misbehaving := !s.reallySecure()
-		vlib.Rec.Case(fmt.Sprintf("exp2 %+v %s", s, kind), misbehaving || s.MustSecure, []string{"exp2", "kind:" + kind, "announce:" + s.AnnounceStatus, "cap:" + s.Capability, "upgrade:" + s.UpgradeStatus, "after:" + s.AfterUpgrade, fmt.Sprintf("must:%v", s.MustSecure), fmt.Sprintf("connected:%v", connected)}, func() interface{} { return desc })
-		fail := func(msg string) {
-			vlib.Rec.Violation(map[string]interface{}{"property": "C04", "experiment": 2, "case": desc, "problem": msg})
-			rt.Fatalf("C04 exp2 %+v kind=%s: %s", s, kind, msg)
-		}
-		if s.MustSecure && connected && !td {
-			fail("client requires security, Connect succeeded, but the scripted server never completed a TLS handshake")
-		}
-		if s.MustSecure && seenClear {
-			fail("client requires security but the scripted server read the application payload in clear")
-		}
-		if s.offersStartTLS() && s.AnnounceStatus == "200" && connected && !td {
-			fail("server offered StartTLS, no TLS handshake took place, yet the client established the session")
-		}
-		if connected {
-			if cc := vlib.ClientConnOf(up); cc != nil && cc.Secure() && !td {
-				fail("client reports the session secure but no TLS handshake took place")
-			}
-		}
-		if s.reallySecure() && !connected {
-			fail(fmt.Sprintf("well-behaved StartTLS script but the client did not connect: %v", cerr))
+		if problem != "" {
+			rt.Fatalf("C04 exp2 %+v kind=%s: %s", s, kind, problem)
 		}
 	})
+}
+
+// TestCapabilitySpellings enumerates how a server may spell a capability list that contains StartTLS (blanks around the
+// commas, other capabilities before and after, letter case) with an otherwise well-behaved StartTLS script, with and
+// without required security: an offered StartTLS is taken, whatever the spelling of the list.
+func TestCapabilitySpellings(t *testing.T) {
+	old := socketace.HandshakeTimeout
+	socketace.HandshakeTimeout = 3 * time.Second
+	defer func() { socketace.HandshakeTimeout = old }()
+	spellings := []string{"StartTLS", "Compress,StartTLS", "Compress, StartTLS", "StartTLS , Compress", "StartTLS, Compress", " StartTLS", "StartTLS ", "Compress , StartTLS , KeepAlive", "starttls", "FOO,\tStartTLS"}
+	for i, sp := range spellings {
+		for _, must := range []bool{false, true} {
+			for _, kind := range []string{"tcp", "http"} {
+				s := script{AnnounceStatus: "200", Capability: sp, UpgradeStatus: "101", AfterUpgrade: "tls", MustSecure: must}
+				problem, skipped := runScript(s, kind, uint64(7000+i))
+				if skipped {
+					vlib.Rec.Inconclusive("listen")
+					continue
+				}
+				if problem != "" {
+					t.Errorf("C04 exp2 %+v kind=%s: %s", s, kind, problem)
+				}
+			}
+		}
+	}
+}
+
+// runScript plays one scripted server against the real client upstream and judges the outcome; "" = fine.
+func runScript(s script, kind string, key uint64) (problem string, skipped bool) {
+	ln, err := net.Listen("tcp", "127.0.0.1:0")
+	if err != nil {
+		return "", true
+	}
+	defer ln.Close()
+	var mu sync.Mutex
+	var clear bytes.Buffer
+	tlsDone := false
+	var wg sync.WaitGroup
+	wg.Add(1)
+	go func() {
+		defer wg.Done()
+		c, err := ln.Accept()
+		if err != nil {
+			return
+		}
+		if kind == "http" {
+			// speak the websocket upgrade first, then the script inside binary messages
+			serveWebsocketScript(c, s, &clear, &mu, &tlsDone)
+			return
+		}
+		serveScript(c, s, &clear, &mu, &tlsDone)
+	}()
+	port := ln.Addr().(*net.TCPAddr).Port
+	var up upstream.Upstream
+	if kind == "tcp" {
+		up = &upstream.Socket{Address: addr.MustParseAddress(fmt.Sprintf("tcp://localhost:%d", port))}
+	} else {
+		up = &upstream.Http{Address: addr.MustParseAddress(fmt.Sprintf("http://localhost:%d/ws", port))}
+	}
+	mgr := &cert.ClientConfig{Config: cert.Config{CaCertificate: vlib.GetPKI().CA.CertPEM}}
+	cerr := up.Connect(mgr, s.MustSecure)
+	connected := cerr == nil
+	mk := marker(key)
+	if connected {
+		// what the client would now carry: application data on the physical session
+		up.SetDeadline(time.Now().Add(3 * time.Second))
+		up.Write(payloadWithMarker(key, 100, 100))
+		time.Sleep(30 * time.Millisecond)
+		up.Close()
+	}
+	ln.Close()
+	wg.Wait()
+	mu.Lock()
+	seenClear := bytes.Contains(clear.Bytes(), mk)
+	td := tlsDone
+	mu.Unlock()
+	desc := map[string]interface{}{"script": s, "kind": kind}
+	misbehaving := !s.reallySecure()
+	vlib.Rec.Case(fmt.Sprintf("exp2 %+v %s", s, kind), misbehaving || s.MustSecure, []string{"exp2", "kind:" + kind, "announce:" + s.AnnounceStatus, "cap:" + s.Capability, "upgrade:" + s.UpgradeStatus, "after:" + s.AfterUpgrade, fmt.Sprintf("must:%v", s.MustSecure), fmt.Sprintf("connected:%v", connected)}, func() interface{} { return desc })
+	fail := func(msg string) {
+		if problem == "" {
+			vlib.Rec.Violation(map[string]interface{}{"property": "C04", "experiment": 2, "case": desc, "problem": msg})
+			problem = msg
+		}
+	}
+	if s.MustSecure && connected && !td {
+		fail("client requires security, Connect succeeded, but the scripted server never completed a TLS handshake")
+	}
+	if s.MustSecure && seenClear {
+		fail("client requires security but the scripted server read the application payload in clear")
+	}
+	if s.offersStartTLS() && s.AnnounceStatus == "200" && connected && !td {
+		fail("server offered StartTLS, no TLS handshake took place, yet the client established the session")
+	}
+	if connected {
+		if cc := vlib.ClientConnOf(up); cc != nil && cc.Secure() && !td {
+			fail("client reports the session secure but no TLS handshake took place")
+		}
+	}
+	if s.reallySecure() && !connected {
+		fail(fmt.Sprintf("well-behaved StartTLS script but the client did not connect: %v", cerr))
+	}
+	return problem, false
 }
 
 type wsNetConn struct {
